@@ -143,4 +143,26 @@ AsgConverts(f, asg) ==
        ELSE IF g.t = "s" THEN Converts(f.opts[j], g.v)
        ELSE \A k \in 1..Len(g.v) : Converts(f.opts[j], g.v[k].v)
 WellFormed(f, rc) == RecipeOK(f, rc) /\ Complete(f, rc) /\ AsgConverts(f, AsgOf(f, rc))
+
+\* ------------------------------------------------------------------ single-fault mutations of a spelling (C02)
+\* mut = [kind, j]: one token appended to / removed from the end of a well-formed line; the fault fixes the error class
+RECURSIVE FinalSt(_, _, _)
+FinalSt(f, st, rc) == IF rc = <<>> THEN st ELSE FinalSt(f, StAfter(f, st, Head(rc)), Tail(rc))
+ZZ == <<"z", "z", "9">>
+LastIsPos(rc) == rc # <<>> /\ rc[Len(rc)].k = "pos"
+MutPre(f, rc, mut) ==
+  LET st == FinalSt(f, St0, rc) IN
+  /\ WellFormed(f, rc)
+  /\ CASE mut.kind = "surplus" -> ~st.bare /\ Len(PosTexts(rc)) = NPosMax(f)             \* every argument slot is taken
+       [] mut.kind = "unknown" -> ~st.sep /\ ~HasOpt(f, ZZ)
+       [] mut.kind = "flagvalue" -> ~st.sep /\ mut.j \in 1..Len(f.opts) /\ f.opts[mut.j].mode = "none"
+       [] mut.kind = "stripvalue" -> ~st.sep /\ mut.j \in 1..Len(f.opts) /\ f.opts[mut.j].mode \in {"req", "multi"}
+       [] mut.kind = "dropreq" -> LastIsPos(rc) /\ Len(PosTexts(rc)) = NRequired(f)          \* the last required argument goes
+MutLine(f, rc, mut) ==
+  CASE mut.kind = "surplus" -> Render(f, rc) \o <<ZZ>>
+    [] mut.kind = "unknown" -> Render(f, rc) \o <<DD \o ZZ>>
+    [] mut.kind = "flagvalue" -> Render(f, rc) \o <<LongT(f.opts[mut.j]) \o <<"=", "v">>>>
+    [] mut.kind = "stripvalue" -> Render(f, rc) \o <<LongT(f.opts[mut.j])>>
+    [] mut.kind = "dropreq" -> Render(f, SubSeq(rc, 1, Len(rc) - 1))
+MutExpect(mut) == IF mut.kind = "unknown" THEN "NoSuchOption" ELSE "CannotParse"
 =============================================================================
